@@ -766,6 +766,16 @@ func (be BlockExpr) Coq(needs_paren bool) string {
 	return addParens(needs_paren, pp.Build())
 }
 
+// ParenExpr always parenthesizes X; used for a nested block so that the scope
+// of its bindings ends with the block.
+type ParenExpr struct {
+	X Expr
+}
+
+func (e ParenExpr) Coq(needs_paren bool) string {
+	return e.X.Coq(true)
+}
+
 type DerefExpr struct {
 	X  Expr
 	Ty Expr
